@@ -453,7 +453,10 @@ class Surrogates(Cached):
         for _ in range(n_iterations):
             #  Get Fourier phases of R surrogate
             r_fft = np.fft.rfft(R, axis=1)
-            r_phases = r_fft / np.abs(r_fft)
+            #  (a vanishing coefficient has no phase: use phase zero)
+            r_amps = np.abs(r_fft)
+            r_phases = np.divide(r_fft, r_amps, out=np.ones_like(r_fft),
+                                 where=r_amps != 0)
 
             #  Transform back, replacing the actual amplitudes by the desired
             #  ones, but keeping the phases exp(iψ(i)
